@@ -168,10 +168,13 @@ WithLink(E, v, lp) ==
        [] lp = "junk" -> E \cup {F(<<"junk.txt">>, "junk")}
        [] lp = "dirs" -> E \cup {[name |-> <<"blobs", "sha256">>, kind |-> "dir", ln |-> <<>>, abs |-> FALSE, c |-> ""]}
 
-Sels == [def |-> [by |-> "tag", v |-> "imp"],        \* plain import to repo:imp
-         tag1 |-> [by |-> "tag", v |-> "v1"], tag2 |-> [by |-> "tag", v |-> "v2"],
-         name2 |-> [by |-> "name", v |-> "v2"], dig2 |-> [by |-> "digest", v |-> "m2"],
-         dkname |-> [by |-> "name", v |-> "q:z"]]
+\* import selection and the state of the target before the import (pre: none | blobs = every blob of the
+\* image is there already | all = everything but the tag), so that the BlobHead / ManifestHead short cuts run
+Sels == [def |-> [by |-> "tag", v |-> "imp", pre |-> "none"],        \* plain import to repo:imp
+         tag1 |-> [by |-> "tag", v |-> "v1", pre |-> "none"], tag2 |-> [by |-> "tag", v |-> "v2", pre |-> "none"],
+         name2 |-> [by |-> "name", v |-> "v2", pre |-> "none"], dig2 |-> [by |-> "digest", v |-> "m2", pre |-> "none"],
+         dkname |-> [by |-> "name", v |-> "q:z", pre |-> "none"],
+         preblobs |-> [by |-> "tag", v |-> "imp", pre |-> "blobs"], preall |-> [by |-> "tag", v |-> "imp", pre |-> "all"]]
 WantOf(g, sel) == IF Len(g.roots) = 1 THEN g.roots[1].n
                   ELSE IF sel.by = "digest" THEN sel.v
                   ELSE g.roots[CHOOSE i \in 1..Len(g.roots) : g.roots[i].tag = sel.v].n
@@ -191,12 +194,14 @@ Mk(gn, lp, sn) ==
        IN [kind |-> "oci", g |-> gn, lp |-> lp, sel |-> Sels[sn], nodes |-> g.nodes, roots |-> g.roots,
            docker |-> DockerOf(g), entries |-> E, want |-> want, dkwant |-> [cfg |-> "", layers |-> <<>>],
            maxpass |-> DepthN(g.nodes, want) + 1 + NLinks(E),
-           bad |-> IF lp \in LinkBad THEN "link" ELSE IF DrainClass(g, want) THEN "drain" ELSE ""]
+           preblobs |-> IF Sels[sn].pre = "none" THEN {} ELSE {n \in ClosureN(g.nodes, want) : g.nodes[n].k = "blob"},
+           premans |-> IF Sels[sn].pre = "all" THEN {n \in ClosureN(g.nodes, want) : g.nodes[n].k # "blob"} ELSE {},
+           bad |-> IF lp \in LinkBad THEN "link" ELSE IF DrainClass(g, want) /\ Sels[sn].pre = "none" THEN "drain" ELSE ""]
   ELSE LET d == DkGraphs[gn]
            E == WithLink({F(<<"manifest.json">>, "docker")} \cup d.files, "", lp)
        IN [kind |-> "docker", g |-> gn, lp |-> lp, sel |-> Sels[sn], nodes |-> [none |-> Bl("norm")], roots |-> <<>>,
            docker |-> d.docker, entries |-> E, want |-> "", dkwant |-> d.want,
-           maxpass |-> 2 + NLinks(E) + (IF gn = "dksym" THEN 1 ELSE 0),
+           maxpass |-> 2 + NLinks(E) + (IF gn = "dksym" THEN 1 ELSE 0), preblobs |-> {}, premans |-> {},
            bad |-> IF gn = "dksame" THEN "duppath" ELSE ""]
 
 OciSmall == {"eidx", "single1", "emptyl", "inline", "dimg", "art"}         \* archives of <= 6 entries
@@ -212,6 +217,7 @@ MultiIds == {"multi"} \X {"none"} \X {"tag1", "tag2", "name2", "dig2"}
 QuickIds == ({"eidx", "single1", "art"} \X {"none"} \X {"def"})
             \cup ({"eidx"} \X LinkAll \X {"def"})
             \cup ({"art"} \X {"symroot", "symsib", "hardshared", "idxlink"} \X {"def"})
+            \cup ({"single1"} \X {"none"} \X {"preblobs", "preall"})
             \cup DkIds
 \* small: the other archives of <= 6 entries
 SmallIds == ((OciSmall \ {"eidx", "single1", "art"}) \X {"none"} \X {"def"})
@@ -219,11 +225,13 @@ SmallIds == ((OciSmall \ {"eidx", "single1", "art"}) \X {"none"} \X {"def"})
 \* mid: archives of 7 entries
 MidIds == (OciMid \X {"none"} \X {"def"})
           \cup ({"art"} \X {"chain2"} \X {"def"})
+          \cup ({"blobent", "nested", "idxsame"} \X {"none"} \X {"preblobs", "preall"})
           \cup ({"single1", "single1m"} \X {"symroot", "hardext", "symsib", "idxlink", "dotslash", "junk"} \X {"def"})
-\* big: archives of 8 entries
+\* big: archives of 8 entries (one of them explored exhaustively, all of them by random orders)
 BigIds == ((OciBig \ {"multi"}) \X {"none"} \X {"def"}) \cup MultiIds
-          \cup ({"single1", "art"} \X {"chain2", "chain3"} \X {"def"})
+          \cup ({"art"} \X {"chain3"} \X {"def"})
           \cup ({"nested", "blobent", "single2"} \X {"symroot", "dotslash"} \X {"def"})
+BigBfsIds == {"idx2"} \X {"none"} \X {"def"}
 ThoroughIds == QuickIds \cup SmallIds \cup MidIds \cup BigIds
 \* scenario generation: every order for archives of <= 6 entries, random orders (-simulate) for the rest
 GenSmallIds == {x \in ThoroughIds : Cardinality(Mk(x[1], x[2], x[3]).entries) <= 6}
